@@ -4,7 +4,9 @@ CONSTANTS MaxCases, EmitVectors
 VARIABLES stage, cfg
 vars == <<stage, cfg>>
 LabelSets == { << >>, << <<"a", "a">>, <<"b", "b">> >>, << <<"0", "0">>, <<"1", "1">>, <<"3", "3">> >>,
-               << <<"Ab", "ab">>, <<"cD", "cd">> >> }
+               << <<"Ab", "ab">>, <<"cD", "cd">> >>,
+               \* label sets of a single class (every instance carries the same label), numeric and not
+               << <<"7", "7">> >>, << <<"z", "z">> >> }
 Init == stage = "opts" /\ cfg = [opts |-> [comment |-> FALSE, equal |-> FALSE, labelled |-> FALSE], labels |-> << >>,
                                  panel |-> << >>, mut |-> "none", lines |-> << >>]
 PickOpts == /\ stage = "opts"
